@@ -44,6 +44,10 @@ ANCHORS = [
     ("src/easynetwork/serializers/base_stream.py", "FileBasedPacketSerializer.__generic_incremental_deserialize"),
     ("src/easynetwork/serializers/base_stream.py", "_wrap_generic_incremental_deserialize"),
     ("src/easynetwork/serializers/base_stream.py", "_wrap_generic_buffered_incremental_deserialize"),
+    ("src/easynetwork/serializers/composite.py", "StapledPacketSerializer.__new__"),
+    ("src/easynetwork/serializers/composite.py", "StapledIncrementalPacketSerializer.incremental_deserialize"),
+    ("src/easynetwork/serializers/composite.py", "StapledBufferedIncrementalPacketSerializer.buffered_incremental_deserialize"),
+    ("src/easynetwork/serializers/composite.py", "StapledBufferedIncrementalPacketSerializer.create_deserializer_buffer"),
     ("src/easynetwork/serializers/wrapper/compressor.py", "AbstractCompressorSerializer.incremental_serialize"),
     ("src/easynetwork/serializers/wrapper/compressor.py", "AbstractCompressorSerializer.__generic_incremental_deserialize"),
 ]
@@ -58,6 +62,140 @@ TRUSTED = ["models coq/Frame/{ReadUntil,BufReadUntil}.v, coq/Stream/Consumer.v h
            "calling the real deserialize() on every payload the framing can extract"]
 ASSUMPTIONS = ["theorem hypothesis valid_pkt: dec(enc p)=p, the separator first occurs in enc p ++ sep at its end, "
                "payload within the limit (buffer-filling path: payload + separator < limit)"]
+
+
+# ------------------------------------------------------------------ StapledPacketSerializer.__new__ -> Gen/ParamsC01.v
+
+_CAP_OF_CLASS = {"AbstractPacketSerializer": 0, "AbstractIncrementalPacketSerializer": 1,
+                 "BufferedIncrementalPacketSerializer": 2}
+_RANK_OF_CLASS = {"StapledPacketSerializer": 0, "StapledIncrementalPacketSerializer": 1,
+                  "StapledBufferedIncrementalPacketSerializer": 2}
+
+
+def _stapled_guard(node):
+    """guard of a case: `cls is X` joined by `or`  ->  Coq boolean over the class code"""
+    import ast
+    from common.runner import TranslateError
+    if node is None:
+        return "true"
+    if isinstance(node, ast.BoolOp) and isinstance(node.op, (ast.Or, ast.And)):
+        op = " || " if isinstance(node.op, ast.Or) else " && "
+        return "(" + op.join(_stapled_guard(v) for v in node.values) + ")"
+    if (isinstance(node, ast.Compare) and len(node.ops) == 1 and isinstance(node.ops[0], ast.Is)
+            and isinstance(node.left, ast.Name) and node.left.id == "cls"
+            and isinstance(node.comparators[0], ast.Name) and node.comparators[0].id in _RANK_OF_CLASS):
+        return f"(cls =? {_RANK_OF_CLASS[node.comparators[0].id]})"
+    raise TranslateError(f"StapledPacketSerializer.__new__: unknown guard {ast.unparse(node)}")
+
+
+def params():
+    """The class dispatch of StapledPacketSerializer.__new__ (which stapled class a pair of serializers becomes) as the
+    Coq function stapled_class cls sent_capability received_capability; capabilities / ranks: 0 one-shot, 1 incremental,
+    2 buffer-filling."""
+    import ast
+    import os
+    from common.runner import REPO, TranslateError
+    path = os.path.join(REPO, "src", "easynetwork", "serializers", "composite.py")
+    tree = ast.parse(open(path).read())
+    klass = [n for n in tree.body if isinstance(n, ast.ClassDef) and n.name == "StapledPacketSerializer"]
+    if len(klass) != 1:
+        raise TranslateError("composite.py: StapledPacketSerializer not found")
+    news = [n for n in klass[0].body if isinstance(n, ast.FunctionDef) and n.name == "__new__"
+            and not any(isinstance(d, ast.Name) and d.id == "overload" for d in n.decorator_list)]
+    if len(news) != 1:
+        raise TranslateError("StapledPacketSerializer.__new__: expected exactly one implementation")
+    fn = news[0]
+    argn = [a.arg for a in fn.args.args]
+    if argn != ["cls", "sent_packet_serializer", "received_packet_serializer"]:
+        raise TranslateError(f"StapledPacketSerializer.__new__: unexpected parameters {argn}")
+    body = [st for st in fn.body if not isinstance(st, ast.AnnAssign) or st.value is not None]
+    if len(body) != 4 or not isinstance(body[0], ast.Match):
+        raise TranslateError("StapledPacketSerializer.__new__: expected `match`, two attribute assignments, `return self`")
+    m = body[0]
+    if ast.unparse(m.subject) != "(sent_packet_serializer, received_packet_serializer)":
+        raise TranslateError(f"StapledPacketSerializer.__new__: unexpected match subject {ast.unparse(m.subject)}")
+    tail = [ast.unparse(st) for st in body[1:]]
+    if tail != ["self.__sent_packet_serializer = sent_packet_serializer",
+                "self.__received_packet_serializer = received_packet_serializer", "return self"]:
+        raise TranslateError(f"StapledPacketSerializer.__new__: unexpected statements after the match: {tail}")
+    branches, closed = [], False
+    for case in m.cases:
+        if closed:
+            raise TranslateError("StapledPacketSerializer.__new__: case after the wildcard")
+        if len(case.body) != 1 or not isinstance(case.body[0], ast.Assign):
+            raise TranslateError("StapledPacketSerializer.__new__: a case body is not a single assignment")
+        asg = case.body[0]
+        call = asg.value
+        if not (ast.unparse(asg.targets[0]) == "self" and isinstance(call, ast.Call)
+                and ast.unparse(call.func) == "super().__new__" and len(call.args) == 1 and not call.keywords
+                and isinstance(call.args[0], ast.Name)):
+            raise TranslateError(f"StapledPacketSerializer.__new__: unexpected case body {ast.unparse(asg)}")
+        target = call.args[0].id
+        if target == "cls":
+            result = "cls"
+        elif target in _RANK_OF_CLASS:
+            result = str(_RANK_OF_CLASS[target])
+        else:
+            raise TranslateError(f"StapledPacketSerializer.__new__: unknown class {target}")
+        pat = case.pattern
+        if isinstance(pat, ast.MatchAs) and pat.pattern is None and pat.name is None:
+            cond = "true"
+            closed = case.guard is None
+        elif isinstance(pat, ast.MatchSequence) and len(pat.patterns) == 2:
+            conds = []
+            for var, sub in zip(("s", "r"), pat.patterns):
+                if not (isinstance(sub, ast.MatchClass) and isinstance(sub.cls, ast.Name) and sub.cls.id in _CAP_OF_CLASS
+                        and not sub.patterns and not sub.kwd_patterns):
+                    raise TranslateError(f"StapledPacketSerializer.__new__: unknown pattern {ast.unparse(pat)}")
+                conds.append(f"({_CAP_OF_CLASS[sub.cls.id]} <=? {var})")
+            cond = " && ".join(conds)
+        else:
+            raise TranslateError(f"StapledPacketSerializer.__new__: unknown pattern {ast.unparse(pat)}")
+        branches.append((f"({cond} && {_stapled_guard(case.guard)})", result))
+    if not closed:
+        raise TranslateError("StapledPacketSerializer.__new__: the match has no unguarded wildcard case")
+    # the stapled classes delegate each method to one half, unchanged (Frame/Stapled.v `staple`)
+    expected = {
+        ("StapledPacketSerializer", "serialize"): "return self.sent_packet_serializer.serialize(packet)",
+        ("StapledPacketSerializer", "deserialize"): "return self.received_packet_serializer.deserialize(data)",
+        ("StapledIncrementalPacketSerializer", "incremental_serialize"):
+            "return self.sent_packet_serializer.incremental_serialize(packet)",
+        ("StapledIncrementalPacketSerializer", "incremental_deserialize"):
+            "return self.received_packet_serializer.incremental_deserialize()",
+        ("StapledBufferedIncrementalPacketSerializer", "create_deserializer_buffer"):
+            "return self.received_packet_serializer.create_deserializer_buffer(sizehint)",
+        ("StapledBufferedIncrementalPacketSerializer", "buffered_incremental_deserialize"):
+            "return self.received_packet_serializer.buffered_incremental_deserialize(buffer)",
+    }
+    classes = {n.name: n for n in tree.body if isinstance(n, ast.ClassDef)}
+    for (cname, mname), want in expected.items():
+        if cname not in classes:
+            raise TranslateError(f"composite.py: class {cname} not found")
+        defs = [n for n in classes[cname].body if isinstance(n, ast.FunctionDef) and n.name == mname]
+        if len(defs) != 1:
+            raise TranslateError(f"{cname}.{mname}: expected exactly one definition")
+        stmts = [st for st in defs[0].body
+                 if not (isinstance(st, ast.Expr) and isinstance(st.value, ast.Constant) and isinstance(st.value.value, str))]
+        if [ast.unparse(st) for st in stmts] != [want]:
+            raise TranslateError(f"{cname}.{mname}: body is not `{want}`")
+    for cname, prop, half in (("StapledPacketSerializer", "sent_packet_serializer", "self.__sent_packet_serializer"),
+                              ("StapledPacketSerializer", "received_packet_serializer", "self.__received_packet_serializer")):
+        defs = [n for n in classes[cname].body if isinstance(n, ast.FunctionDef) and n.name == prop]
+        stmts = [st for d in defs for st in d.body
+                 if not (isinstance(st, ast.Expr) and isinstance(st.value, ast.Constant) and isinstance(st.value.value, str))]
+        if len(defs) != 1 or [ast.unparse(st) for st in stmts] != [f"return {half}"]:
+            raise TranslateError(f"{cname}.{prop}: body is not `return {half}`")
+    out = ["From Coq Require Import ZArith Bool.", "Local Open Scope Z_scope.",
+           "(* serializers/composite.py StapledPacketSerializer.__new__: class of the object built for",
+           "   cls (0 Stapled, 1 StapledIncremental, 2 StapledBufferedIncremental) and the capabilities of the two halves",
+           "   (0 one-shot, 1 incremental, 2 buffered incremental) *)",
+           "Definition stapled_class (cls s r : Z) : Z :="]
+    for i, (cond, result) in enumerate(branches):
+        if i == len(branches) - 1:
+            out.append(f"  {result}.")
+        else:
+            out.append(f"  if {cond} then {result} else")
+    return "\n".join(out) + "\n"
 
 
 def gen_packet(impl, sep, rng, maxlen, conv=False):
@@ -234,6 +372,7 @@ def _fix_cfg(kind, cfg):
 
 def cases(tier, rng, escalate):
     yield from ser_cases(tier, rng, escalate)
+    yield from stapled_cases(tier, rng, escalate)
     yield from recv_cases(tier, rng, escalate)
     yield from generic_cases(tier, rng, escalate)
 
@@ -280,6 +419,129 @@ def recv_cases(tier, rng, escalate):
                                nontrivial=bool(npk >= 2 and len(chunks) >= 2))
 
 
+# ------------------------------------------------------------------ StapledPacketSerializer (kind 30)
+
+def _stapled_build(cls, s_cap, r_cap, received):
+    """StapledPacketSerializer(sent, received) with halves of the requested capabilities; the received half is the
+    real serializer of the inner case restricted to its one-shot / incremental / buffered interface"""
+    from easynetwork.serializers.abc import AbstractIncrementalPacketSerializer, AbstractPacketSerializer
+    from easynetwork.serializers import composite
+
+    class OneShot(AbstractPacketSerializer):
+        def __init__(self, inner):
+            self.inner = inner
+
+        def serialize(self, packet):
+            return self.inner.serialize(packet)
+
+        def deserialize(self, data):
+            return self.inner.deserialize(data)
+
+    class IncrOnly(OneShot, AbstractIncrementalPacketSerializer):
+        def incremental_serialize(self, packet):
+            return self.inner.incremental_serialize(packet)
+
+        def incremental_deserialize(self):
+            return self.inner.incremental_deserialize()
+
+    def restrict(ser, cap):
+        return ser if cap == 2 else IncrOnly(ser) if cap == 1 else OneShot(ser)
+
+    sent = restrict(sc.IdAutoSep(b"\n", 1000, incremental_serialize_check_separator=True), s_cap)
+    klass = [composite.StapledPacketSerializer, composite.StapledIncrementalPacketSerializer,
+             composite.StapledBufferedIncrementalPacketSerializer][cls]
+    return klass(sent, restrict(received, r_cap))
+
+
+def run_stapled(inp):
+    from easynetwork.protocol import BufferedStreamProtocol
+    from easynetwork.serializers import composite
+    _k, cls, s_cap, r_cap, inner, probe = inp
+    kind, cfg, _dec, chunks, impl = inner[:5]
+    stapled = _stapled_build(cls, s_cap, r_cap, sc.make_serializer(kind, cfg, impl))
+    rank = (2 if isinstance(stapled, composite.StapledBufferedIncrementalPacketSerializer)
+            else 1 if isinstance(stapled, composite.StapledIncrementalPacketSerializer) else 0)
+    buffered = kind in (1, 3)
+    try:
+        (BufferedStreamProtocol if buffered else StreamProtocol)(stapled)
+    except TypeError:
+        got = -1
+    else:
+        try:
+            if buffered:
+                got = sc.run_buffered(stapled, cfg[3] if kind == 1 else cfg[1], chunks)
+            else:
+                got = sc.run_copy(stapled, chunks)
+        except Exception as exc:                     # a path the serializer claims but cannot serve
+            got = [-2, type(exc).__name__.encode()]
+    try:
+        sent = [bytes(c) for c in StreamProtocol(stapled).generate_chunks(probe)]
+    except TypeError:
+        sent = -1
+    except ValueError:
+        sent = -2
+    return [rank, got, sent]
+
+
+def stapled_cases(tier, rng, escalate):
+    """every (class called, sent capability, received capability) the signatures allow x both receive paths"""
+    thorough = tier == "thorough" or escalate
+    combos = [(0, s, r) for s in range(3) for r in range(3)]
+    combos += [(1, s, r) for s in (1, 2) for r in (1, 2)] + [(2, s, 2) for s in (1, 2)]
+    confs = [dict(kinds=(0, 1), sep=b"\r\n", keep_end=False, impl=[b"line", b"ascii"]),
+             dict(kinds=(0, 1), sep=b"aba", keep_end=False, impl=[b"autosep"]),
+             dict(kinds=(2, 3), size=3, impl=[b"fixed"])]
+    for cls, s_cap, r_cap in combos:
+        for cfgd in confs:
+            for kind in cfgd["kinds"]:
+                for _ in range(4 if thorough else 1):
+                    npk = rng.choice([1, 2, 3])
+                    pkts = [gen_packet(cfgd["impl"], cfgd.get("sep"), rng, cfgd.get("size", 3)) for _ in range(npk)]
+                    b = build(cfgd, kind, pkts, 40, rng.choice([1, 3, 8, 64]))
+                    if b is None:
+                        continue
+                    kind_, cfg, dec, stream, sent = b
+                    if not stream:
+                        continue
+                    valid = validity(cfgd, kind, cfg, stream, sent, pkts)
+                    chunkings = [[stream], [stream[i:i + 1] for i in range(len(stream))]]
+                    for _k in range(4 if thorough else 2):
+                        chunkings.append(sc.cuts_to_chunks(stream, [rng.randrange(1, max(2, len(stream))) for _ in range(rng.randrange(1, 4))]))
+                    probe = bytes(rng.choice(b"ab\n") for _ in range(rng.choice([0, 1, 2, 3])))
+                    for chunks in chunkings:
+                        yield dict(input=[30, cls, s_cap, r_cap, [kind, cfg, dec, chunks, cfgd["impl"], sent, int(valid)], probe],
+                                   tags=["kind30", "stapled", f"cls{cls}", f"sent-cap{s_cap}", f"recv-cap{r_cap}",
+                                         "buffered-path" if kind in (1, 3) else "copying-path",
+                                         "valid" if valid else "excluded-input"],
+                                   nontrivial=bool(s_cap != r_cap and npk >= 2))
+
+
+def stapled_oracle(inp):
+    """two peers stapling the same two serializers the other way round: what the sent half produces must come back
+    through the received half on every receive path that half supports"""
+    _k, cls, s_cap, r_cap, inner, probe = inp
+    kind, cfg, _dec, chunks, impl, sent, valid = inner[:7]
+    rank, got, _sentchunks = run_stapled(inp)
+    need = 2 if kind in (1, 3) else 1
+    if s_cap < 1 or r_cap < need:
+        if got != -1 and not (isinstance(got, list) and got and isinstance(got[0], list)):
+            return f"stapled serializer claims a receive path its received half cannot serve: {got!r}"
+        return None
+    if got == -1:
+        return (f"stapled serializer (sent capability {s_cap}, received capability {r_cap}) is refused on the "
+                f"{'buffer-filling' if need == 2 else 'copying'} path although both halves support it")
+    if isinstance(got, list) and got and got[0] == -2:
+        return f"stapled serializer fails on the receive path: {got[1]!r}"
+    if not valid:
+        return None
+    events = [e for r in got for e in r[1]]
+    if [e for e in events if e[0] != 0]:
+        return "error reported on a stream of valid packets through a stapled serializer"
+    if [e[1] for e in events if e[0] == 0] != list(sent):
+        return f"received packets differ from sent through a stapled serializer: sent={sent!r}"
+    return None
+
+
 def _ser_setup(inp):
     _k, variant, cfg, data, impl = inp[:5]
     if variant == 0:
@@ -292,6 +554,8 @@ def _ser_setup(inp):
 
 
 def run_impl(inp):
+    if inp[0] == 30:
+        return run_stapled(inp)
     if 4 <= inp[0] <= 8:
         return sc2.run_impl(inp)
     if inp[0] != 10:
@@ -335,6 +599,8 @@ def ser_oracle(inp):
 def oracle(inp):
     if inp[0] == 10:
         return ser_oracle(inp)
+    if inp[0] == 30:
+        return stapled_oracle(inp)
     kind, cfg, _dec, chunks, impl, sent, valid = inp[:7]
     if not valid:
         return None
@@ -362,6 +628,10 @@ def shrink(inp):
         data = inp[3]
         for i in range(len(data)):
             yield [10, inp[1], inp[2], data[:i] + data[i + 1:], inp[4]]
+        return
+    if inp[0] == 30:
+        for inner in shrink(inp[4]):
+            yield inp[:4] + [inner, inp[5]]
         return
     kind, cfg, dec, chunks = inp[:4]
     for i in range(len(chunks) - 1):
